@@ -13,13 +13,12 @@ type Violation struct {
 	Finding string // id of the known finding whose signature this matches, if any
 }
 
-const (
-	findingPPT       = "F15" // bare assertions / args[0] / nil payload in PPT unpack
-	findingWedge     = "F16" // run blocked in runSignalReply on an abandoned reply channel
-	findingPPTAbort  = "F41" // RESULT with unannounced ppt_scheme: send side closed, next send / Close panics
-	findingDupInv    = "F42" // INVOCATIONs repeating a live request id block run in handlerQueue <- msg
-	findingCloseRace = "F43" // an API call racing with Close() sends on the closed channel: panic
-)
+// findingCloseRace is the one open finding the family knows (known_findings.json, C17): a
+// goroutine of the client sending while Close() closes the send channel panics. The defects
+// formerly known as F15, F16, F41 and F42 are fixed (652e15e, 710325f, aee6f97, c166f26): their
+// shapes are in the main stream and their witnesses are replayed as regressions; a reappearance
+// is an ordinary violation.
+const findingCloseRace = "F43"
 
 var replyReqIndex = map[int]int{33: 1, 35: 1, 65: 1, 67: 1, 17: 1, 50: 1, 8: 2}
 
@@ -87,6 +86,13 @@ func (v *view) sessionEndT() int {
 			upd(st.T)
 		}
 	}
+	// the client ends the session itself when it answers a protocol violation with ABORT
+	// (abortSession: a PPT result or option without the router having announced the feature)
+	for _, s := range v.sends {
+		if m, ok := s[2].([]any); ok && num(at(m, 0)) == 3 {
+			upd(int(num(s[0])))
+		}
+	}
 	return end
 }
 
@@ -104,56 +110,6 @@ func (v *view) routerEnded() bool {
 	return false
 }
 
-// wedgeFinding recognises the signatures of the two known wedges.
-func (v *view) wedgeFinding() string {
-	lo := v.res.Leftover
-	if strings.Contains(lo, "runSignalReply") {
-		// shape: a request answered twice, or an answer at the instant its waiter's timer fires
-		count := map[int64]int{}
-		for _, st := range v.res.Concrete {
-			if st.Stim != "router" {
-				continue
-			}
-			code := int(num(at(st.M, 0)))
-			ri, ok := replyReqIndex[code]
-			if !ok {
-				continue
-			}
-			r := num(at(st.M, ri))
-			count[r]++
-			for g, q := range v.res.Req {
-				if int64(q) != r {
-					continue
-				}
-				if v.op[g] != "call" && st.T == v.startT[g]+v.sc.Cfg.Timeout {
-					return findingWedge
-				}
-				if ct, ok := v.cancelT[g]; ok && st.T == ct+v.sc.Cfg.Timeout {
-					return findingWedge
-				}
-			}
-		}
-		for _, n := range count {
-			if n >= 2 {
-				return findingWedge
-			}
-		}
-	}
-	if strings.Contains(lo, "runHandleInvocation [chan send") {
-		count := map[string]int{}
-		for _, st := range v.res.Concrete {
-			if st.Stim == "router" && num(at(st.M, 0)) == 68 {
-				k := fmt.Sprint(num(at(st.M, 1)), "/", num(at(st.M, 2)))
-				count[k]++
-				if count[k] >= 3 {
-					return findingDupInv
-				}
-			}
-		}
-	}
-	return ""
-}
-
 // check evaluates the property sentences on the implementation's behaviour.
 func check(sc Scenario, res Result, prop string) []Violation {
 	v := newView(sc, res)
@@ -163,18 +119,14 @@ func check(sc Scenario, res Result, prop string) []Violation {
 
 	if res.Panic != "" {
 		f := ""
-		switch {
-		case strings.Contains(res.Panic, "closed channel") && v.pptAbortShape():
-			f = findingPPTAbort
-		case strings.Contains(res.Panic, "send on closed channel") && v.closeT >= 0:
+		if strings.Contains(res.Panic, "send on closed channel") && v.closeT >= 0 {
 			f = findingCloseRace // a goroutine of the client was sending when Close() closed the channel
 		}
 		out = append(out, Violation{Clause: "C17.no-panic", Detail: "the client panicked: " + res.Panic, Finding: f})
 		return out
 	}
-	wedge := v.wedgeFinding()
-	wedged := strings.Contains(res.Leftover, "runSignalReply") || strings.Contains(res.Leftover, "runHandleInvocation [chan send")
-	if wedged {
+	if strings.Contains(res.Leftover, "runSignalReply") || strings.Contains(res.Leftover, "runHandleInvocation [chan send") ||
+		strings.Contains(res.Leftover, "runHandleInvocation [select") && res.CloseCalled && !res.CloseReturned {
 		what := "the receive loop is blocked for good (" + res.Leftover + ")"
 		if len(res.Unreturned) > 0 {
 			what += fmt.Sprintf("; API calls %v never returned", res.Unreturned)
@@ -182,7 +134,7 @@ func check(sc Scenario, res Result, prop string) []Violation {
 		if res.CloseCalled && !res.CloseReturned {
 			what += "; Close() did not return"
 		}
-		out = append(out, Violation{Clause: "C17.never-stuck", Detail: what, Finding: wedge})
+		out = append(out, Violation{Clause: "C17.never-stuck", Detail: what})
 		return out
 	}
 
@@ -508,23 +460,6 @@ func isSubsequence(sub, full []string) bool {
 		}
 	}
 	return i == len(sub)
-}
-
-// pptAbortShape: a RESULT using ppt_scheme was sent although the router did not announce the feature.
-func (v *view) pptAbortShape() bool {
-	if v.sc.Cfg.DealerPPT {
-		return false
-	}
-	for _, st := range v.res.Concrete {
-		if st.Stim == "router" && num(at(st.M, 0)) == 50 {
-			if d, ok := at(st.M, 2).(map[string]any); ok {
-				if s, _ := d["ppt_scheme"].(string); s != "" {
-					return true
-				}
-			}
-		}
-	}
-	return false
 }
 
 // hasPPTResult: some RESULT carries PPT details (its arguments are then rewritten by the client).
